@@ -156,7 +156,13 @@ Fixpoint skip_leading_globals (fuel : nat) (globals : list aspec) (argv : list b
   | S fuel' =>
       match argv with
       | t :: rest =>
-          if starts_dash t then
+          if beq t [45; 45] then
+            (* `--` before the subcommand: the top level has no positional, whatever follows is unexpected *)
+            match rest with
+            | x :: _ => inr (ETooManyPositionals x)
+            | [] => inl ([], seen)
+            end
+          else if starts_dash t then
             match parse_tokens 3 globals [t] 0 seen false with
             | POk s => skip_leading_globals fuel' globals rest s
             | PErr (EMissingValue id) =>
